@@ -22,7 +22,7 @@ THEOREMS = ["FP.Props.C08.kmpe_sound", "FP.Props.C08.kmpe_routes_valid", "FP.Pro
             "FP.Props.C08.kmpe_factors_complete_false", "FP.Props.C12.intProd_sound", "FP.Props.C12.piecewise_sound",
             "FP.Props.C07.wmax_adequate", "FP.Props.C01.pathcore_sound", "FP.Props.C12.binProd_exact"]
 IMPORTS = ["FP.Props.C08", "FP.Props.C07", "FP.Props.C01", "FP.Props.C12"]
-K2_ADAPTERS = ["kmpe"]
+K2_ADAPTERS = ["kmpe", "kmpec"]
 RULE = ("K2: random kMinPathError configurations (as for C07, plus path_length_ranges/factors and k=None). K5: random "
         "instances with arbitrary non-negative integer values <= 4, DAG <= 6 edges / cyclic <= 5 edges; for each instance "
         "the brute-force cover number c of the non-ignored edges (cyclic: walks using an edge at most twice) and runs with "
@@ -237,7 +237,7 @@ def run_instance(ctx, rng, cls, suite="K5.mpe"):
 
 def run(ctx):
     rng = ctx.rng
-    k2.run_k2(ctx, K2_ADAPTERS, ctx.n(120, 2500))
+    k2.run_k2(ctx, K2_ADAPTERS, ctx.n(80, 1500))
     per = ctx.n(60, 600)
     for cls in ["kMinPathError", "kMinPathErrorCycles"]:
         sampled = False
